@@ -261,8 +261,8 @@ TYPES = {
                          values=["[]", "[1]", "[1, 'a']", "[2.5, 1, 'a']", "[None, True]", "[1, 'a', 2.5, None, True]"],
                          neutral="[1]"),
 }
-# the Selector whose objects contain None takes the None *object*; the None *value* of the other
-# types is the allow_None state
+# values carrying these tags hit the two defects DESIGN.md section 9 lists for C15; they are explored in
+# part A only, so that parts B and C (subsets, many-parameter objects) are not masked by them
 SAFE_TAGS = ("year<1000", "nested-tuple")
 
 
@@ -405,13 +405,15 @@ def random_values(n_each):
 
 # --------------------------------------------------------------------------------------------
 def run(tier, seed):
-    warnings.simplefilter("ignore")
+    # param's warnings / log output are silenced for the duration of the run and restored afterwards
+    prev = logging.root.manager.disable
     logging.disable(logging.CRITICAL)
     try:
-        return _run(tier, seed)
+        with warnings.catch_warnings():
+            warnings.simplefilter("ignore")
+            return _run(tier, seed)
     finally:
-        logging.disable(logging.NOTSET)
-        warnings.resetwarnings()
+        logging.disable(prev)
 
 
 def _run(tier, seed):
@@ -469,7 +471,7 @@ def _run(tier, seed):
                 if first_fail is not None:
                     (kind, detail), decls, level, api = first_fail
                     tail = "value=%s decl=%s level=%s api=%s" % (vsrc, decls["x"], level, api)
-                    report("C15/roundtrip/value+type", tname, vcls, kind, tail,
+                    report("C15/roundtrip/value-and-type", tname, vcls, kind, tail,
                            detail + " [%d of the 6 level/api combinations fail]" % nfail,
                            (decls, {"x": vsrc}, level, api))
                 elif len(B.samples) < 3 and vcls != "plain":
@@ -478,10 +480,8 @@ def _run(tier, seed):
 
     for tname, t in TYPES.items():
         vals = list(t["values"])
-        if tname != "Selector" and tname != "Selector{}" and tname != "ObjectSelector":
-            vals = _none_last(vals)
-        elif tname == "Selector":
-            vals = _none_last(vals)         # None is one of the objects
+        if tname not in ("Selector{}", "ObjectSelector"):
+            vals = _none_last(vals)         # None: the allow_None state (for "Selector": one of the objects)
         part_a(tname, vals, ["", ", allow_None=True"], "A")
 
     # ---------------------------------------------------------------- part B: subsets
@@ -549,12 +549,12 @@ def _run(tier, seed):
                     form = "%s/%s" % (type(ss).__name__, type(ds).__name__)
                     B.case(key=("B", qname, ai, level, skey(ss), skey(ds), form))
                     res = roundtrip(cls, values, level, "parameters", ss, ds)
-                    B.checked("C15/subset/names+values[%s]" % level)
+                    B.checked("C15/subset/names-and-values[%s]" % level)
                     if res is not None:
                         kind, detail = res
                         tail = "assignment=%d level=%s ser_subset=%s de_subset=%s form=%s" % (
                             ai, level, skey(ss), skey(ds), form)
-                        report("C15/subset/names+values", qname, "subset", kind, tail, detail,
+                        report("C15/subset/names-and-values", qname, "subset", kind, tail, detail,
                                (dsrc, assign, level, "parameters",
                                 ss if not isinstance(ss, set) else sorted(ss),
                                 ds if not isinstance(ds, set) else sorted(ds)))
